@@ -333,8 +333,11 @@ pub fn expect_u(c: &Ctx, w: &Wall) -> Expect {
                 let wins: Vec<_> = m.windows.iter().filter(|x| x.wall == e.id).collect();
                 let win_a: f64 = wins.iter().map(|x| x.geometry.width as f64 * x.geometry.height as f64).sum();
                 let a_net = area(e) - win_a;
-                ua_lo += (a_net - 0.0101) * iv.lo.max(0.0);
-                ua_hi += (a_net + 0.0101) * iv.hi;
+                // interval product (the slab formula can give a negative U with strong perimeter insulation; the library
+                // adds it as it is)
+                let prods = [(a_net - 0.0101) * iv.lo, (a_net - 0.0101) * iv.hi, (a_net + 0.0101) * iv.lo, (a_net + 0.0101) * iv.hi];
+                ua_lo += prods.iter().cloned().fold(f64::INFINITY, f64::min);
+                ua_hi += prods.iter().cloned().fold(f64::NEG_INFINITY, f64::max);
                 for x in wins {
                     if let Some(wc) = m.cons.wincons.iter().find(|k| k.id == x.cons) {
                         let g = m.cons.glasses.iter().find(|g| g.id == wc.glass);
@@ -358,15 +361,32 @@ pub fn expect_u(c: &Ctx, w: &Wall) -> Expect {
             let n = unc.n_v.map(|v| v as f64).unwrap_or_else(|| global_vent(m, c.height_net));
             let q = vol * n;
             let a_i = area(w);
-            let u_of = |ua: f64| {
+            // the library works with areas and heights rounded to two decimals: sizes given in millimetres move the
+            // partition area, the floor area and the net height of the unconditioned space by up to half a unit each
+            let hn = (c.height_net)(unc.id);
+            // (a building-wide rate is itself flow / volume of all habitable spaces, each with the same roundings)
+            let eps_n = if unc.n_v.is_some() { 0.0 } else { 0.004 };
+            let eps_q = (0.0051 / a_unc.max(0.01) + 0.0051 / hn.abs().max(0.01) + eps_n).min(0.05);
+            let u_of = |ua: f64, a_i: f64, q: f64| {
                 let h = ua + 0.33 * q;
                 if h <= 0.0 {
                     0.0
                 } else {
-                    1.0 / (r_f + a_i / h)
+                    1.0 / (r_f + a_i.max(0.0) / h)
                 }
             };
-            let vals = [u_of(ua_lo.max(0.0)), u_of(ua_hi), u_of(ua_lo.max(0.0) * 0.9995), u_of(ua_hi * 1.0005)];
+            if std::env::var("VERIF_DEBUG").is_ok() {
+                eprintln!("DEBUG partition: r_f={} a_i={} ua_lo={} ua_hi={} q={} n={} vol={} a_unc={} hn={}", r_f, a_i, ua_lo, ua_hi, q, n, vol, a_unc, hn);
+                for e in space_walls(m, unc.id).filter(|e| e.bounds == BoundaryType::EXTERIOR || e.bounds == BoundaryType::GROUND) {
+                    eprintln!("DEBUG   elem {:?} tilt {} area {} lib_u {:?} expect {:?}", e.bounds, e.geometry.tilt, area(e), e.u_value(m), match expect_u(c, e) { Expect::Value(iv, b) => format!("[{}, {}] {}", iv.lo, iv.hi, b), Expect::None => "none".into(), Expect::DontCare(r) => format!("dontcare {}", r) });
+                }
+            }
+            let mut vals = vec![];
+            for ai in [a_i - 0.0051, a_i + 0.0051] {
+                for qq in [q * (1.0 - eps_q), q * (1.0 + eps_q)] {
+                    vals.extend([u_of(ua_lo - 5e-4 * ua_lo.abs(), ai, qq), u_of(ua_hi + 5e-4 * ua_hi.abs(), ai, qq)]);
+                }
+            }
             Expect::Value(Iv::of(&vals).widen(R2 + 2e-4), "partition/cond-uncond")
         }
     }
